@@ -560,3 +560,43 @@ def geometric_weight_sweep(ck, c, scope, rule="DEFUSE", floor=1):
                           "inside the loop the weight is re-assigned from a loop-invariant value: the progression of weights collapses after the first item", f.loc(bad[0]) if bad else f.loc(sorted(lp)[0]))
     ck.floor(rule, "loop-carried weights of linear combinations", n, floor)
     return n
+
+
+def gated_verification_sweep(ck, c, scope, rule="DOM", floor=1, callee=r"::verify[a-z_0-9]*$|verify_signature[a-z_0-9]*$|::check_[a-z_0-9]*$"):
+    """A verification call may sit in a match arm (it applies to one kind of credential/statement) or behind earlier
+    refusals, but it is never switched off by the SIZE of something: `if !proofs.is_empty() && !verify(..)` skips the check
+    exactly for the inputs that carry nothing else to protect them.  Gate = a dominating switch with a single edge towards
+    the call whose other edges do not all refuse; a gate fed by is_empty()/len() is reported."""
+    n = 0
+    for p in sorted(c.paths()):
+        if not scope.search(p) or re.search(r"::tests?::|::test_|prove|prover", p):
+            continue
+        for b in c.get_all(p):
+            f = Fn(b)
+            sites = [(bi, t) for (bi, t) in f.calls(callee) if re.search(r"concordium_base::", t["f"].get("path", "") + " " + (t["f"].get("resolved") or ""))]
+            if not sites:
+                continue
+            rr = f.reject_region()
+            sw = f.switches()
+            for k, (bi, t) in enumerate(sites):
+                n += 1
+                gates = []
+                for (sb, st) in sw:
+                    if sb == bi or not f.dominates(sb, bi):
+                        continue
+                    succs = [tb for _, tb in st["t"]] + ([st["o"]] if st["o"] is not None else [])
+                    toward = [x for x in succs if f.dominates(x, bi)]
+                    others = [x for x in succs if not f.dominates(x, bi)]
+                    if len(toward) != 1 or not others:
+                        continue
+                    others = [rules.resolve_const_edge(f, x) for x in others]
+                    if all(x in rr for x in others):
+                        continue        # an earlier refusal that was passed
+                    o = f.origins(st["d"], deep=True)
+                    if has_call_origin(o, r"::is_empty$|::len$") and not any(a[0] == "discr" for a in f.origins(st["d"], deep=False)):
+                        gates.append(sb)
+                ck.ob(rule, p, "verification-not-gated-by-size#%d:%s" % (k, t["f"]["path"].split("::")[-1]), not gates,
+                      "reached on every path of its arm (no emptiness/length gate)" if not gates else
+                      "the verification is skipped depending on is_empty()/len() of some collection (the other branch does not refuse): inputs of that size are accepted unchecked", f.loc(gates[0]) if gates else f.loc(bi))
+    ck.floor(rule, "verification calls examined for size gates", n, floor)
+    return n
